@@ -653,6 +653,13 @@ class Folder:
                 return _wrap(args[0] ** args[1], bits, signed)
             if meth in ('from_le', 'to_le'):
                 return args[0]
+        if fn in ('core::option::Option::<T>::unwrap_or_default', 'core::option::Option::<T>::unwrap_or') and t[3]:
+            x = t[3][0]
+            if x[0] == 'call' and NUM_FN.match(x[2]) and NUM_FN.match(x[2]).group(2) in ('checked_sub', 'checked_add', 'checked_mul'):
+                v = self._checked(x)
+                if v is None:
+                    return 0 if fn.endswith('unwrap_or_default') else self.ev(t[3][1])
+                return v
         if fn in ('core::cmp::min', 'core::cmp::Ord::min'):
             return min(self.ev(a) for a in t[3])
         if fn in ('core::cmp::max', 'core::cmp::Ord::max'):
